@@ -246,7 +246,7 @@ theorem incRel_renderFileWith (P : Prims) (O : OutPrims) (cfg : Cfg) (fs : FS)
   | otherError => exact .fail (.plain _) (.plain _) rfl
 
 theorem incRel_incFuel (P : Prims) (O : OutPrims) (cfg : Cfg) (fs : FS) : ∀ fuel : Nat, IncRel (incFuel P O cfg fs fuel)
-  | 0 => fun _ _ _ _ _ => .unmodelled _
+  | 0 => fun _ _ _ _ _ => .fail (.plain _) (.plain _) rfl
   | n+1 => incRel_renderFileWith P O cfg fs _ (incRel_incFuel P O cfg fs n)
 
 /-- the engine's own context: the include handler is line-independent -/
